@@ -9,12 +9,13 @@ CONSTANTS
     CHi = 3
     Ks = {2}
     Ordered = TRUE
+    Adjacent = FALSE
+    FixCutoff = FALSE
     Replay = TRUE
     RMod = 5
+\* (TreeWellFormed / FilterSafe are checked by the MC configurations)
 SPECIFICATION Spec
 INVARIANT FilterCorrect
 INVARIANT BuildSafe
-INVARIANT TreeWellFormed
-INVARIANT FilterSafe
 INVARIANT Emit
 CHECK_DEADLOCK FALSE
